@@ -121,7 +121,7 @@ func (t *Thread) RunContinuation(c Cont) (err error) {
 			}
 			err = rtErr.AddContext(c, -1)
 			errContCount++
-			if t.messageHandler != nil {
+			if t.messageHandler != nil && (t.messageHandlerThread == nil || t.messageHandlerThread == t) {
 				if errContCount > maxErrorsInMessageHandler {
 					return newHandledError(errErrorInMessageHandler)
 				}
@@ -352,6 +352,11 @@ func (t *Thread) sendResumeValues(args []Value, err error, exception interface{}
 // See quotas.md for details about this API.
 func (t *Thread) CallContext(def RuntimeContextDef, f func() error) (ctx RuntimeContext, err error) {
 	t.PushContext(def)
+	if def.MessageHandler != nil {
+		// The handler is for errors of this thread only: a coroutine resumed
+		// while it is installed delivers its errors to its resumer unhandled.
+		t.messageHandlerThread = t
+	}
 	c, h := t.CurrentCont(), t.closeStack.size()
 	defer func() {
 		ctx = t.PopContext()
